@@ -6,7 +6,7 @@ Copyright 2020, 2021 William W. Kimball, Jr. MBA MSIS
 """
 import sys
 from os.path import basename
-from typing import Any, Dict, List, Set, Tuple, Union
+from typing import Any, Dict, List, Optional, Set, Tuple, Union
 import json
 from io import StringIO
 from pathlib import Path
@@ -637,7 +637,7 @@ class Merger:
     def _insert_dict(
         self, insert_at: YAMLPath,
         lhs: Union[CommentedMap, CommentedSeq, CommentedSet],
-        rhs: CommentedMap
+        rhs: CommentedMap, target: Optional[NodeCoords] = None
     ) -> bool:
         """Insert an RHS dict merge result into the LHS document."""
         merge_performed = False
@@ -694,12 +694,14 @@ class Merger:
 
         if insert_at.is_root:
             self.data = merged_data
+        else:
+            self._replace_target(target, lhs, merged_data)
         return merge_performed
 
     def _insert_list(
         self, insert_at: YAMLPath,
         lhs: Union[CommentedMap, CommentedSeq, CommentedSet],
-        rhs: CommentedSeq
+        rhs: CommentedSeq, target: Optional[NodeCoords] = None
     ) -> bool:
         """Insert an RHS list merge result into the LHS document."""
         merge_performed = False
@@ -740,12 +742,14 @@ class Merger:
 
         if insert_at.is_root:
             self.data = merged_data
+        else:
+            self._replace_target(target, lhs, merged_data)
         return merge_performed
 
     def _insert_set(
         self, insert_at: YAMLPath,
         lhs: Union[CommentedMap, CommentedSeq, CommentedSet],
-        rhs: CommentedSet
+        rhs: CommentedSet, target: Optional[NodeCoords] = None
     ) -> bool:
         """Insert an RHS list merge result into the LHS document."""
         merge_performed = False
@@ -785,7 +789,18 @@ class Merger:
 
         if insert_at.is_root:
             self.data = merged_data
+        else:
+            self._replace_target(target, lhs, merged_data)
         return merge_performed
+
+    @staticmethod
+    def _replace_target(
+        target: Optional[NodeCoords], lhs: Any, merged_data: Any
+    ) -> None:
+        """Put a merge result which is a new object in place of its target."""
+        if (target is not None and merged_data is not lhs
+                and isinstance(target.parent, (dict, list))):
+            target.parent[target.parentref] = merged_data
 
     def _insert_scalar(
         self, insert_at: YAMLPath, lhs: Any, lhs_proc: Processor, rhs: Any
@@ -903,15 +918,15 @@ class Merger:
                 merge_performed = True
             elif isinstance(rhs, CommentedMap):
                 merge_performed = self._insert_dict(
-                    insert_at, target_node, rhs)
+                    insert_at, target_node, rhs, node_coord)
             elif isinstance(rhs, CommentedSeq):
                 # The RHS document root is a list
                 merge_performed = self._insert_list(
-                    insert_at, target_node, rhs)
+                    insert_at, target_node, rhs, node_coord)
             elif isinstance(rhs, CommentedSet):
                 # The RHS document is a set
                 merge_performed = self._insert_set(
-                    insert_at, target_node, rhs)
+                    insert_at, target_node, rhs, node_coord)
             else:
                 # The RHS document root is a Scalar value
                 merge_performed = self._insert_scalar(
